@@ -342,7 +342,7 @@ def handleLine (st : St) (line : String) : St × String :=
   | ["dq", name, ver, rx] =>
     match parseName name, parseList "rx:" rx, st.reqProg with
     | some host, some rx, some P =>
-      if st.reqSrc.isEmpty then (st, "norouter") else
+      if st.reqSrc.isEmpty && (st.reqFb == 0xFC || st.reqFb == 0xFD) then (st, "norouter") else
       let cfg : Cfg := { nUp := st.nUp, req := P, resp := P }
       let one (qt : Nat) : String :=
         match daednsSelect cfg host qt rx with
